@@ -269,6 +269,7 @@ class Interp:
         self.summaries = summaries if summaries is not None else {}     # name or 'dep:x' -> callable(interp, state, args, inst) -> value
         self.budget = budget; self.steps = 0; self.max_steps = max_steps
         self.accesses = []       # (function, loc, obj, offset, size, kind) concrete accesses bounds-checked
+        self.null_derefs = []    # (location, load/store, last opaque conditions, partition described by affine constraints only)
         self.aborts = []         # partitions that ended in a noreturn call (failed assertion in assertion-enabled builds)
         self.nofork = 0          # mask of input bits that must not be partitioned on (e.g. an unknown string length)
         self.nforks = 0
@@ -338,7 +339,9 @@ class Interp:
     def _cells(self, st, ptr, n, inst, kind):
         if isinstance(ptr, BV):
             if ptr.concrete() == 0:
-                st.events.append(('null-deref', inst.loc)); raise Unmodelled('NULL dereference at %s' % inst.loc)
+                st.events.append(('null-deref', inst.loc))
+                self.null_derefs.append((inst.loc, kind, [str(o_)[:80] for o_ in st.cons.opaque[-2:]], not st.cons.opaque))
+                raise Unmodelled('NULL dereference at %s' % inst.loc)
             raise Unmodelled('memory access through a non-pointer value at %s' % inst.loc)
         if not isinstance(ptr, Ptr):
             raise Unmodelled('memory access through %r at %s' % (ptr, inst.loc))
